@@ -446,6 +446,160 @@ theorem upTo_cases (st : Store) (duid colName : String) (e : Nat) :
     · exact Or.inl hX.symm
     · exact Or.inl hX.symm
 
+/-! ### replay from a snapshot -/
+
+def replayOf (x : Replica × Outcome Unit) : Option DState :=
+  match x with
+  | (r, .ok ()) => some r.state
+  | _ => none
+
+theorem replayState_eq (typ : DtType) (ops : List Op) :
+    replayState typ ops = replayOf ((Replica.new typ "server" false).receive ops) := rfl
+
+theorem replayOf_some {x : Replica × Outcome Unit} {s : DState} :
+    replayOf x = some s ↔ x.2 = .ok () ∧ x.1.state = s := by
+  rcases x with ⟨r, (_ | c | w)⟩ <;> simp [replayOf]
+
+theorem replayOf_congr {x y : Replica × Outcome Unit} (h1 : x.1.state = y.1.state) (h2 : x.2 = y.2) :
+    replayOf x = replayOf y := by
+  rcases x with ⟨r, ox⟩
+  rcases y with ⟨r', oy⟩
+  simp only at h1 h2
+  subst h2
+  rcases ox with _ | c | w <;> simp [replayOf, h1]
+
+/-- replaying `A ++ B` from the empty datatype is receiving `B` on any replica that carries the state
+    reached by `A` -/
+theorem replay_extend (typ : DtType) (A B : List Op) (rb : Replica) (hA : replayState typ A = some rb.state) :
+    replayState typ (A ++ B) = replayOf (rb.receive B) := by
+  rw [replayState_eq, replayOf_some] at hA
+  obtain ⟨h1, h2⟩ := hA
+  rw [replayState_eq, receive_append_eq B A.length A _ (Nat.le_refl _) h1]
+  obtain ⟨c1, c2⟩ := receive_congr B.length B _ rb (Nat.le_refl _) h2
+  exact replayOf_congr c1 c2
+
+/-- no stored snapshot of the datatype is newer than the one the rebuild starts from -/
+theorem base_max (st : Store) (doc : DatatypeDoc) :
+    ∀ s ∈ st.snapshots, s.colNum = doc.colNum → s.duid = doc.duid → s.sseq ≤ (base st doc).2 := by
+  intro x hx1 hx2 hx3
+  have hx : x ∈ snapsOf st doc := by simp [snapsOf, hx1, hx2, hx3]
+  unfold base
+  cases hb : bestOf (snapsOf st doc) with
+  | none => rw [bestOf_none hb] at hx; cases hx
+  | some s => exact (bestOf_some hb).2 x hx
+
+/-- the rebuild starts from a replica that carries the replay of the first `v` log operations -/
+theorem base_spec {st : Store} {doc : DatatypeDoc} (hd : doc ∈ st.datatypes) (hs : st.SnapInv) :
+    (base st doc).2 ≤ doc.sseqEnd ∧
+      replayState doc.typ ((st.logOf doc.duid).take (base st doc).2) = some (base st doc).1.state := by
+  unfold base
+  cases hb : bestOf (snapsOf st doc) with
+  | none =>
+    refine ⟨Nat.zero_le _, ?_⟩
+    show replayState doc.typ ((st.logOf doc.duid).take 0) = _
+    rw [List.take_zero]
+    rfl
+  | some s =>
+    have hm : s ∈ st.snapshots ∧ s.colNum = doc.colNum ∧ s.duid = doc.duid := by
+      simpa [snapsOf] using (bestOf_some hb).1
+    obtain ⟨h1, h2⟩ := hs s hm.1 doc hd hm.2.2.symm
+    rw [hm.2.2] at h2
+    exact ⟨h1, h2⟩
+
+/-- from the latest snapshot (version `v`) through the next `k` operations: the version reached is
+    `v + (number applied)` and what is computed is the replay of the log up to there -/
+theorem reach {st : Store} {doc : DatatypeDoc} (hd : doc ∈ st.datatypes) (hi : LogInv st) (hs : st.SnapInv)
+    (k : Nat) :
+    IsSeq (((st.opsOf doc.duid).drop (base st doc).2).take k) ((base st doc).2 + 1) ∧
+    (base st doc).2 + (((st.opsOf doc.duid).drop (base st doc).2).take k).length ≤ doc.sseqEnd ∧
+    replayState doc.typ ((st.logOf doc.duid).take
+        ((base st doc).2 + (((st.opsOf doc.duid).drop (base st doc).2).take k).length)) =
+      replayOf ((base st doc).1.receive ((((st.opsOf doc.duid).drop (base st doc).2).take k).map (·.op))) := by
+  have gap := hi.gapless doc hd
+  obtain ⟨hseq, hlen⟩ := isSeq_of_range gap
+  obtain ⟨hv, hrep⟩ := base_spec hd hs
+  rw [logOf_eq gap] at hrep ⊢
+  refine ⟨?_, ?_, ?_⟩
+  · have := (hseq.drop (base st doc).2).take k
+    rwa [Nat.add_comm] at this
+  · have h1 := List.length_take_le' k ((st.opsOf doc.duid).drop (base st doc).2)
+    rw [List.length_drop] at h1
+    omega
+  · rw [← List.map_take] at hrep
+    rw [List.take_add, ← List.map_drop, ← List.map_take, ← List.map_take, take_length_take]
+    exact replay_extend _ _ _ _ hrep
+
+theorem verOf_ge {ops : List OpDoc} {v : Nat} (h : ∀ o ∈ ops, v ≤ o.sseq) : v ≤ verOf ops v := by
+  unfold verOf
+  cases hl : ops.getLast? with
+  | none => simp
+  | some last => simpa using h last (List.mem_of_getLast? hl)
+
+/-! ### pushes -/
+
+open SL
+
+/-- every stored snapshot belongs to a datatype document -/
+def SnapNoOrphan (st : Store) : Prop := ∀ s ∈ st.snapshots, ∃ d ∈ st.datatypes, d.duid = s.duid
+
+theorem doc2_typ (st : Store) (cl : ClientDoc) (p : Pack) (d : Dispatch) (doc : DatatypeDoc) (cp2 : CheckPoint)
+    (nd : List OpDoc) : (doc2 st cl p d doc cp2 nd).typ = doc.typ := by
+  unfold doc2 DatatypeDoc.setSub; simp only []; split
+  · rfl
+  · split <;> rfl
+
+/-- what a push does to the store, as far as snapshots are concerned -/
+theorem processPack_store (st : Store) (cl : ClientDoc) (col : CollectionDoc) (p : Pack) (hi : LogInv st) :
+    (processPack st cl col p).store.snapshots = st.snapshots ∧
+    (processPack st cl col p).store.userDocs = st.userDocs ∧
+    (∃ nd, (processPack st cl col p).store.operations = st.operations ++ nd) ∧
+    (∀ d ∈ st.datatypes, ∃ d' ∈ (processPack st cl col p).store.datatypes, d'.duid = d.duid) ∧
+    (∀ d ∈ st.datatypes, ∀ d' ∈ (processPack st cl col p).store.datatypes, d'.duid = d.duid →
+      d'.typ = d.typ ∧ d.sseqEnd ≤ d'.sseqEnd) := by
+  rcases processPack_shape st cl col p with ⟨resp, he, _⟩ | ⟨dsp, doc, cp2, nd, he, hp, hsv⟩
+  · rw [he]
+    refine ⟨rfl, rfl, ⟨[], by simp⟩, fun d hd => ⟨d, hd, rfl⟩, ?_⟩
+    intro d hd d' hd' hid
+    have := eq_of_nodup_duid hi.duidNodup hd' hd hid
+    subst this
+    exact ⟨rfl, Nat.le_refl _⟩
+  · rw [he]
+    refine ⟨rfl, rfl, ⟨nd, rfl⟩, fun d hd => upsert_covers hd, ?_⟩
+    intro d hd d' hd' hid
+    rcases mem_upsert_nodup hi.duidNodup hd' with hd2 | ⟨hm, _⟩
+    · have hdoc : doc = d := by
+        rcases hsv.src with ⟨hf, _⟩ | hm
+        · exact absurd (by rw [← hid, hd2, doc2_duid]) (hf d hd)
+        · exact eq_of_nodup_duid hi.duidNodup hm hd (by rw [← hid, hd2, doc2_duid])
+      subst hdoc
+      obtain ⟨_, _, hn3, hn4, _, _⟩ := pushRes_spec hsv hp
+      obtain ⟨_, hc3⟩ := cp3_spec (cl := cl) (cp2 := cp2) (nd := nd) hi hsv
+      rw [hd2, doc2_typ, doc2_sseqEnd]
+      refine ⟨rfl, ?_⟩
+      cases hro : p.readOnly with
+      | true => simp
+      | false =>
+        simp only [Bool.false_eq_true, if_false]
+        rcases hc3 with h3 | h3
+        · rw [h3]; exact Nat.le_add_right _ _
+        · rw [h3, hn4 hro]; exact Nat.le_add_right _ _
+    · have := eq_of_nodup_duid hi.duidNodup hm hd hid
+      subst this
+      exact ⟨rfl, Nat.le_refl _⟩
+
+/-- appending operation documents leaves every prefix of a gapless log alone -/
+theorem logOf_take_append {st st' : Store} {duid : String} {nd : List OpDoc}
+    (ho : st'.operations = st.operations ++ nd) {n n' : Nat}
+    (h : (st.opsOf duid).map (·.sseq) = List.range' 1 n)
+    (h' : (st'.opsOf duid).map (·.sseq) = List.range' 1 n') {k : Nat} (hk : k ≤ n) :
+    (st'.logOf duid).take k = (st.logOf duid).take k := by
+  rw [logOf_eq h, logOf_eq h']
+  have : st'.opsOf duid = st.opsOf duid ++ nd.filter (fun o => o.duid = duid) := by
+    unfold Store.opsOf; rw [ho, List.filter_append]
+  rw [this, List.map_append, List.take_append_of_le_length]
+  rw [List.length_map, (isSeq_of_range h).2]
+  exact hk
+
 end SN
 
 open SL SN
@@ -465,5 +619,227 @@ theorem receive_append (r : Replica) (a b : List Op) (ha : (r.receive a).2 = .ok
     ((r.receive (a ++ b)).2 = .ok () ↔ ((r.receive a).1.receive b).2 = .ok ()) := by
   rw [receive_append_eq b a.length a r (Nat.le_refl _) ha]
   exact ⟨rfl, Iff.rfl⟩
+
+/-- C11: rebuilding from the latest stored snapshot plus the later operations gives the same state as
+    rebuilding from the whole log (and the version reached is the end of the log) -/
+theorem latest_is_full_replay (st : Store) (doc : DatatypeDoc) (hd : doc ∈ st.datatypes)
+    (hi : LogInv st) (hs : st.SnapInv) (hdu : (st.datatypes.map (·.duid)).Nodup)
+    (hfull : (replayState doc.typ (st.logOf doc.duid)).isSome = true) :
+    ∃ r ver, st.latest doc = some (r, ver) ∧ some r.state = replayState doc.typ (st.logOf doc.duid) ∧
+      (ver = doc.sseqEnd ∨ (st.logOf doc.duid = [] ∧ ver = 0)) := by
+  have gap := hi.gapless doc hd
+  obtain ⟨hseq, hlen⟩ := isSeq_of_range gap
+  obtain ⟨hv, _⟩ := base_spec hd hs
+  obtain ⟨r1, r2, r3⟩ := reach hd hi hs ((st.opsOf doc.duid).drop (base st doc).2).length
+  rw [List.take_length] at r1 r2 r3
+  have hget := getOperations_drop gap (base st doc).2
+  have hall : (st.logOf doc.duid).take ((base st doc).2 + ((st.opsOf doc.duid).drop (base st doc).2).length)
+      = st.logOf doc.duid := by
+    apply List.take_of_length_le
+    rw [logOf_eq gap, List.length_map, List.length_drop]
+    omega
+  rw [hall] at r3
+  rw [latest_eq, hget]
+  rw [r3] at hfull
+  rcases hr : (base st doc).1.receive (((st.opsOf doc.duid).drop (base st doc).2).map (·.op)) with ⟨r, (_ | c | w)⟩ <;>
+    rw [hr] at hfull r3
+  · refine ⟨r, _, by rw [hr], r3.symm, Or.inl ?_⟩
+    rw [r1.verOf, List.length_drop]
+    omega
+  · simp [replayOf] at hfull
+  · simp [replayOf] at hfull
+
+/-- C11: the updater — whenever it runs, for whatever end of log `e` it was started — keeps
+    "every stored snapshot at version v is the replay of operations 1..v" … -/
+theorem snapInv_updateSnapshotUpTo (st : Store) (duid colName : String) (e : Nat)
+    (hi : LogInv st) (hs : st.SnapInv) :
+    (st.updateSnapshotUpTo duid colName e).SnapInv := by
+  rcases upTo_cases st duid colName e with h | ⟨doc, r, hg, hr, _, h⟩
+  · rw [h]; exact hs
+  · rw [h]
+    obtain ⟨hd, hdu⟩ := getDatatype_some hg
+    subst hdu
+    have gap := hi.gapless doc hd
+    obtain ⟨hseq, hlen⟩ := isSeq_of_range gap
+    have hops : opsUpTo st doc.duid (base st doc).2 e =
+        ((st.opsOf doc.duid).drop (base st doc).2).take (e + 1 - (1 + (base st doc).2)) := by
+      unfold opsUpTo
+      rw [getOperations_drop gap, (hseq.drop _).filter_le e]
+    obtain ⟨r1, r2, r3⟩ := reach hd hi hs (e + 1 - (1 + (base st doc).2))
+    rw [← hops] at r1 r2 r3
+    rw [hr] at r3
+    intro s hsm d hdm hds
+    rcases List.mem_append.1 hsm with hsm | hsm
+    · exact hs s hsm d hdm hds
+    · simp only [List.mem_singleton] at hsm
+      subst hsm
+      have : d = doc := eq_of_nodup_duid hi.duidNodup hdm hd hds
+      subst this
+      show verOf _ _ ≤ d.sseqEnd ∧ replayState d.typ ((st.logOf d.duid).take (verOf _ _)) = some r.state
+      rw [r1.verOf]
+      exact ⟨r2, r3⟩
+
+/-- … and "the user document is the state of a stored snapshot with its version recorded" -/
+theorem userInv_updateSnapshotUpTo (st : Store) (duid colName : String) (e : Nat)
+    (hs : st.SnapInv) (hu : st.UserInv) : (st.updateSnapshotUpTo duid colName e).UserInv := by
+  rcases upTo_cases st duid colName e with h | ⟨doc, r, hg, hr, _, h⟩
+  · rw [h]; exact hu
+  · rw [h]
+    intro u hum
+    rcases List.mem_append.1 hum with hum | hum
+    · obtain ⟨s, hsm, h1⟩ := hu u (List.mem_filter.1 hum).1
+      exact ⟨s, List.mem_append_left _ hsm, h1⟩
+    · simp only [List.mem_singleton] at hum
+      subst hum
+      exact ⟨_, List.mem_append_right _ (List.mem_singleton.2 rfl), rfl, rfl, rfl⟩
+
+/-- no push and no updater run leaves a snapshot without its datatype document -/
+theorem snapNoOrphan_updateSnapshotUpTo (st : Store) (duid colName : String) (e : Nat)
+    (hn : SnapNoOrphan st) : SnapNoOrphan (st.updateSnapshotUpTo duid colName e) := by
+  rcases upTo_cases st duid colName e with h | ⟨doc, r, hg, hr, _, h⟩
+  · rw [h]; exact hn
+  · rw [h]
+    intro s hsm
+    rcases List.mem_append.1 hsm with hsm | hsm
+    · exact hn s hsm
+    · simp only [List.mem_singleton] at hsm
+      subst hsm
+      exact ⟨doc, (getDatatype_some hg).1, (getDatatype_some hg).2⟩
+
+theorem snapNoOrphan_processPack (st : Store) (cl : ClientDoc) (col : CollectionDoc) (p : Pack)
+    (hi : LogInv st) (hn : SnapNoOrphan st) : SnapNoOrphan (processPack st cl col p).store := by
+  obtain ⟨h1, _, _, h4, _⟩ := processPack_store st cl col p hi
+  intro s hsm
+  rw [h1] at hsm
+  obtain ⟨d, hd, hds⟩ := hn s hsm
+  obtain ⟨d', hd', hdd⟩ := h4 d hd
+  exact ⟨d', hd', hdd.trans hds⟩
+
+theorem snapNoOrphan_empty : SnapNoOrphan {} := by
+  intro s hs; cases hs
+
+/-- pushes only append to the log, so they keep the snapshot invariant (prefixes 1..v are unchanged).
+    The extra hypothesis `SnapNoOrphan` (every stored snapshot belongs to a datatype document) is needed:
+    `SnapInv` says nothing about a snapshot whose datatype document does not exist, and a push can
+    create that document. -/
+theorem snapInv_processPack_partial (st : Store) (cl : ClientDoc) (col : CollectionDoc) (p : Pack)
+    (hi : LogInv st) (hs : st.SnapInv) (hn : SnapNoOrphan st) : (processPack st cl col p).store.SnapInv := by
+  have hi' := logInv_processPack st cl col p hi
+  obtain ⟨h1, _, ⟨nd, h3⟩, _, h5⟩ := processPack_store st cl col p hi
+  intro s hsm d' hd' hds
+  rw [h1] at hsm
+  obtain ⟨d, hd, hdd⟩ := hn s hsm
+  obtain ⟨ht, hle⟩ := h5 d hd d' hd' (hds.trans hdd.symm)
+  obtain ⟨hs1, hs2⟩ := hs s hsm d hd hdd
+  have g := hi.gapless d hd
+  have g' := hi'.gapless d' hd'
+  rw [hdd] at g
+  rw [hds] at g'
+  rw [ht, logOf_take_append h3 g g' hs1]
+  exact ⟨Nat.le_trans hs1 hle, hs2⟩
+
+theorem userInv_processPack (st : Store) (cl : ClientDoc) (col : CollectionDoc) (p : Pack)
+    (hu : st.UserInv) : (processPack st cl col p).store.UserInv := by
+  have h : (processPack st cl col p).store.snapshots = st.snapshots ∧
+      (processPack st cl col p).store.userDocs = st.userDocs := by
+    rcases processPack_shape st cl col p with ⟨resp, he, _⟩ | ⟨dsp, doc, cp2, nd, he, _, _⟩ <;> rw [he] <;> exact ⟨rfl, rfl⟩
+  intro u hum
+  rw [h.2] at hum
+  rw [h.1]
+  exact hu u hum
+
+/-- C11: the recorded version of the user document never decreases: the updater writes a user document only
+    together with a NEW snapshot whose version is greater than every stored snapshot version of that datatype -/
+theorem version_monotone (st : Store) (duid colName : String) (e : Nat) (doc : DatatypeDoc)
+    (hd : st.getDatatype duid = some doc) :
+    let st' := st.updateSnapshotUpTo duid colName e
+    st'.userDocs = st.userDocs ∨
+    (∃ u ∈ st'.userDocs, u.key = doc.key ∧ u.col = colName ∧
+       ∀ s ∈ st.snapshots, s.colNum = doc.colNum → s.duid = duid → s.sseq < u.ver) := by
+  intro st'
+  rcases upTo_cases st duid colName e with h | ⟨doc', r, hg, hr, hany, h⟩
+  · left; show (st.updateSnapshotUpTo duid colName e).userDocs = _; rw [h]
+  · right
+    rw [hd] at hg
+    cases hg
+    have hdu := (getDatatype_some hd).2
+    refine ⟨⟨colName, doc.key, verOf (opsUpTo st duid (base st doc).2 e) (base st doc).2, r.state⟩, ?_, rfl, rfl, ?_⟩
+    · show _ ∈ (st.updateSnapshotUpTo duid colName e).userDocs
+      rw [h]
+      exact List.mem_append_right _ (List.mem_singleton.2 rfl)
+    · intro s hsm hc hsd
+      have hmax := base_max st doc s hsm hc (hsd.trans hdu.symm)
+      have hge : (base st doc).2 ≤ verOf (opsUpTo st duid (base st doc).2 e) (base st doc).2 := by
+        apply verOf_ge
+        intro o ho
+        have := (mem_getOperations.1 (List.mem_filter.1 ho).1).2
+        omega
+      have hne := List.any_eq_false.1 hany s hsm
+      simp only [decide_eq_true_eq, not_and] at hne
+      have := hne hsd
+      show s.sseq < verOf (opsUpTo st duid (base st doc).2 e) (base st doc).2
+      omega
+
+/-- the atomic updater of Model/Server (run right after its push) is the bounded one started for the current end of log -/
+theorem updateSnapshot_eq_upTo (st : Store) (duid colName : String) (doc : DatatypeDoc)
+    (hd : st.getDatatype duid = some doc) (hi : LogInv st) :
+    st.updateSnapshot duid colName = st.updateSnapshotUpTo duid colName doc.sseqEnd := by
+  obtain ⟨hm, hdu⟩ := getDatatype_some hd
+  subst hdu
+  have gap := hi.gapless doc hm
+  obtain ⟨hseq, hlen⟩ := isSeq_of_range gap
+  have hf : opsUpTo st doc.duid (base st doc).2 doc.sseqEnd = st.getOperations doc.duid ((base st doc).2 + 1) := by
+    unfold opsUpTo
+    apply List.filter_eq_self.2
+    intro o ho
+    have := hseq.mem (mem_getOperations.1 ho).1
+    simp only [decide_eq_true_eq]
+    omega
+  rw [upTo_eq, hd]
+  unfold Store.updateSnapshot
+  rw [hd]
+  simp only []
+  rw [latest_eq, hf]
+  generalize (base st doc).1.receive ((st.getOperations doc.duid ((base st doc).2 + 1)).map (·.op)) = x
+  rcases x with ⟨r, (_ | c | w)⟩ <;> rfl
+
+/-! ### `snapInv_processPack` without `SnapNoOrphan` is false -/
+
+namespace SN
+def cexStore : Store := { snapshots := [⟨0, "d", 5, OpId.nil, "k", .counter 42⟩] }
+def cexCl : ClientDoc := ⟨"c1", "a", 0, 0, 0⟩
+def cexCol : CollectionDoc := ⟨"col", 0⟩
+def cexPack : Pack := { key := "k", duid := "d", create := true, cp := ⟨0, 0⟩, typ := .counter, ops := [] }
+end SN
+
+/-- counterexample to `snapInv_processPack` as first stated (hypotheses `LogInv` and `SnapInv` only): a
+    store holding a snapshot (version 5) of a datatype id that has no datatype document satisfies both
+    vacuously; a push that creates a datatype with that id (end of log 0) breaks `SnapInv` -/
+theorem snapInv_processPack_counterexample :
+    ∃ (st : Store) (cl : ClientDoc) (col : CollectionDoc) (p : Pack),
+      LogInv st ∧ st.SnapInv ∧ ¬ (processPack st cl col p).store.SnapInv := by
+  have hi : LogInv cexStore := logInv_congr (st := {}) rfl rfl logInv_empty
+  refine ⟨cexStore, cexCl, cexCol, cexPack, hi, ?_, ?_⟩
+  · intro s _ d hd; cases hd
+  · intro h
+    have hany : (processPack cexStore cexCl cexCol cexPack).store.datatypes.any
+        (fun d => d.duid = "d" ∧ d.sseqEnd = 0) = true := by decide
+    obtain ⟨d, hd, hp⟩ := List.any_eq_true.1 hany
+    simp only [decide_eq_true_eq] at hp
+    have hsn := (processPack_store cexStore cexCl cexCol cexPack hi).1
+    have := (h ⟨0, "d", 5, OpId.nil, "k", .counter 42⟩ (by rw [hsn]; exact List.mem_singleton.2 rfl) d hd hp.1).1
+    rw [hp.2] at this
+    exact absurd this (by decide)
+
+theorem snapInv_empty : ({} : Store).SnapInv := by
+  intro s hs; cases hs
+
+theorem userInv_empty : ({} : Store).UserInv := by
+  intro u hu; cases hu
+
+/-- `receive_append` as an equation of results -/
+theorem receive_append_full (r : Replica) (a b : List Op) (ha : (r.receive a).2 = .ok ()) :
+    r.receive (a ++ b) = (r.receive a).1.receive b :=
+  SN.receive_append_eq b a.length a r (Nat.le_refl _) ha
 
 end Orda
